@@ -27,6 +27,22 @@ def _gens():
     return base
 
 
+# --- T2: a spec's option dict may name its own translator ("translator": a function with translate_function's signature)
+# and carry data for the JSON driver / the differential check ("driver": {...}, see harness/specs_t2.py); a spec WITH a
+# "driver" entry is run through the JSON driver even though it has options
+def _translate(fn, name, args, ret, partial, opt=None):
+    from . import translate as tr
+    opt = dict(opt or {})
+    f = opt.pop("translator", None) or tr.translate_function
+    opt.pop("driver", None)
+    return f(fn, name, args, ret, partial, **opt)
+
+
+def _runnable(opt):
+    return not opt or "driver" in opt[0]
+# --- end T2
+
+
 def _specs_base():
     from . import translate as tr
     from orquestra.quantum.circuits import _itertools, _unitary_tools
@@ -123,11 +139,11 @@ def translated_driver():
     for prop in sorted(specs):
         good = []
         for fn, name, args, ret, partial, *opt in specs[prop]:
-            if opt:
+            if not _runnable(opt):  # --- T2: was `if opt:`
                 continue  # functions over opaque objects are not run through the JSON driver
             try:
-                tr.translate_function(fn, name, args, ret, partial)
-                good.append((name, args, ret, partial))
+                _translate(fn, name, args, ret, partial, opt[0] if opt else None)  # --- T2: was tr.translate_function(...)
+                good.append((name, args, ret, partial) + ((True,) if opt else ()))
             except Exception:
                 pass
         if good:
@@ -137,9 +153,22 @@ def translated_driver():
             "def strJ (s : List Char) : Json := Json.str (String.ofList s)",
             "def strOf (j : Json) : Except String (List Char) := do pure (← strOfJson j).toList",
             "def intJ (n : Int) : Json := Json.str (toString n)",
-            "def optJ {α : Type} (f : α → Json) : Option α → Json\n  | none => Json.null\n  | some a => f a", "",
+            "def optJ {α : Type} (f : α → Json) : Option α → Json\n  | none => Json.null\n  | some a => f a",
+            # --- T2: pairs (dict entries, tuples) as two-element arrays
+            "def pairOfJson {α β : Type} (f : Json → Except String α) (g : Json → Except String β) (j : Json) : "
+            "Except String (α × β) := do\n  match (← arrOfJson j) with\n  | [a, b] => pure (← f a, ← g b)\n"
+            "  | _ => throw \"expected a pair\"", "",
             "def handle (op : String) (j : Json) : Except String Json := do", "  match op with"]
-    for name, args, ret, partial in ok:
+    for name, args, ret, partial, *generic in ok:
+        if generic:  # --- T2: JSON glue derived from the declared types (type variables run at String)
+            from . import translate_t2 as t2
+            binds = " ".join(f'let a{k} : {t2.lean_type(t)} ← {t2.lean_dec(t2.parse_type(t))} (← field j "a{k}");'
+                             for k, t in enumerate(args))
+            call = f"Translated.{name} " + " ".join(f"a{k}" for k in range(len(args)))
+            enc = t2.lean_enc(t2.parse_type(ret))
+            enc = f"optJ {enc}" if partial else enc
+            out.append(f'  | "{name}" => {binds} pure ({enc} ({call}))')
+            continue
         binds = " ".join(f'let a{k} ← {_DEC[t]} (← field j "a{k}");' for k, t in enumerate(args))
         call = f"Translated.{name} " + " ".join(f"a{k}" for k in range(len(args)))
         enc = f"optJ {_ENC[ret]}" if partial else _ENC[ret]
@@ -156,7 +185,7 @@ def _translated(prop):
            "import OQ.Exec.Py", "set_option linter.unusedVariables false", "namespace OQ.Generated.Translated", ""]
     for fn, name, args, ret, partial, *opt in _specs()[prop]:
         try:
-            out.append(tr.translate_function(fn, name, args, ret, partial, **(opt[0] if opt else {})))
+            out.append(_translate(fn, name, args, ret, partial, opt[0] if opt else None))  # --- T2: was tr.translate_function(…, **opt)
         except Exception as e:
             # the function no longer fits the translated subset: the definition is missing, so the tie theorem that
             # mentions it fails to build (a broken proof obligation naming the function); the others still check
